@@ -52,7 +52,8 @@ func NewSimpleURL(u *url.URL) (SimpleURL, error) {
 		case strings.HasPrefix(name, "fields[") && strings.HasSuffix(name, "]") && len(name) > 8:
 			resType := name[7 : len(name)-1]
 
-			if len(values.Get(name)) > 0 {
+			// A list made of empty items only (",,") is like an empty value.
+			if len(parseCommaList(values.Get(name))) > 0 {
 				sURL.Fields[resType] = parseCommaList(values.Get(name))
 			}
 		case strings.HasPrefix(name, "page[") && strings.HasSuffix(name, "]") && len(name) > 6:
